@@ -164,8 +164,8 @@ AtRoot == \A i \in 1..Len(hist) : hist[i].n = 1
 \* the memoising variants on every history; the plain ones (nothing may be remembered at all) on
 \* the histories that stay at the root
 HCfgs ==
-    { FamCfg("cwalk", << >>), FamCfg("cident", << >>), FamCfg("cident", << "x" >>),
-      FamCfg("ccoll", << >>), FamCfg("ccomb", << >>) }
+    { FamCfg("cwalk", << >>), FamCfg("cident", << >>), FamCfg("cident", << "x" >>), FamCfg("ccoll", << >>) }
+    \cup (IF AtRoot \/ Tier # "quick" THEN { FamCfg("ccomb", << >>) } ELSE {})
     \cup (IF AtRoot THEN { FamCfg("walk", << >>), FamCfg("ident", << "x" >>), FamCfg("coll", << >>) } ELSE {})
     \cup (IF AtRoot /\ Tier # "quick" THEN { FamCfg("comb", << >>), FamCfg("cbident", << "x" >>) } ELSE {})
 CfgSeq(S) == LET RECURSIVE Go(_) Go(X) == IF X = {} THEN << >>
